@@ -9,7 +9,7 @@ def chk(pid, cat, ref, text, note, tech):
             "level_claimed": {"category": cat, "design_ref": ref, "text": text}, "level_note": note}
 checks = [
  chk("C03", "exploration", "DESIGN.md §4 C03, §10",
-  "The same (program, configuration) is built under seeded environment variants that must not matter — runtime seed (Go map iteration order, process-global math/rand, temp-file names, all decided by the runtime seam), -p and schedule of the garble processes, cache state (user-cold / a seeded subset of a first build's entries deleted / fully cold in the thorough tier), location of source tree and TMPDIR — and every variant's binary must equal the canonical build's; the garbled source handed to each compile step is hashed as the run proceeds so that a mismatch is localised to a package and file.",
+  "The same (program, configuration) is built under seeded environment variants that must not matter — runtime seed (Go map iteration order, process-global math/rand, temp-file names, all decided by the runtime seam), -p and schedule of the garble processes, cache state (user-cold / a seeded subset of a first build's entries deleted / fully cold in the thorough tier), location of source tree and TMPDIR — and every variant's binary must equal the canonical build's, as must the obfuscated source handed to each compile step (what -debugdir would show), which is hashed as the run proceeds so that a mismatch is localised to a package and file. The thorough tier adds fully cold builds, including a pair for a program with trash blocks.",
   "cmd/go, compile, asm and link taken to be deterministic; clock references are reviewed by the instrumenter (an unlisted one fails the run); a defect affecting every variant identically is invisible.",
   TECH + ": seeded search over runtime-randomness seeds, schedules and cache states, byte comparison with a canonical build"),
  chk("C04", "exploration", "DESIGN.md §4 C04, §10",
@@ -21,7 +21,7 @@ checks = [
   "Reference = garble-sim alone on a fresh copy of the same multi-configuration std template; fault-free by definition; runtime randomness held fixed.",
   TECH + " (fault-free configuration): seeded histories against a reference model (the cold build)"),
  chk("C07", "fault_enumeration", "DESIGN.md §4 C07, §10",
-  "Every user-package entry file of GARBLE_CACHE (index and data, each kind) and every file of the patched-linker cache is deleted/emptied/truncated in turn (thorough: all five modes), plus all multi-element subsets along the import chain, all combinations of whole-directory removals, seeded samples of std entries, GOCACHE files, multi-fault sets under seeded -p 4 schedules, two siblings recomputing the same lost dependency entry concurrently, and entries vanishing at a parked event mid-build; after each, the real garble rebuilds under the simulator and must succeed, equal the isolated cold reference bit for bit, behave like the plain build, only ever read cache bytes that were put under that key, and leave a state in which a further rebuild is a no-op.",
+  "Every user-package entry file of GARBLE_CACHE (index and data, each kind) and every file of the patched-linker cache is deleted/emptied/truncated in turn (thorough: all five modes), plus all multi-element subsets along the import chain, all combinations of whole-directory removals, seeded samples of std entries, GOCACHE files, multi-fault sets under seeded -p 4 schedules, two siblings recomputing the same lost dependency entry concurrently, one entry file damaged while the garbled part of GOCACHE is lost (same action IDs recompiled over half-present entries), files the build stored without going through the cache API (enumerated positionally), and entries vanishing at a parked event mid-build; after each, the real garble rebuilds under the simulator and must succeed, equal the isolated cold reference bit for bit, behave like the plain build, only ever read cache bytes that were put under that key, and leave a state in which a further rebuild is a no-op.",
   "Reference = garble-sim itself run alone on a fresh std template; runtime randomness held fixed; std entries and GOCACHE files are sampled, not enumerated; -debugdir cases run outside the gate because garble forces a full -a rebuild for them; same-size content corruption is outside the property.",
   TECH + ": durable-state faults enumerated over cache files, rebuild under the gated simulator, compared with an isolated reference build"),
  chk("C08", "exploration", "DESIGN.md §4 C08, §10",
@@ -33,7 +33,7 @@ checks = [
   "Interleavings of shared-state events, not of instructions; quiescence of uninstrumented go commands is read from /proc (recorded traces replay by identity and do not depend on it); no faults here.",
   TECH + ": seeded schedules over parked real processes with history monitors and isolated reference builds"),
  chk("C18", "fault_enumeration", "DESIGN.md §4 C18, §10",
-  "The canonical event sequence of a build is recorded per start state {template, linker cache empty, linker missing with stamp intact, cache aged}; every gated event index (thorough) is a crash point: the whole process tree is SIGKILLed there, for writes also after a torn prefix (0/1/half/size-1 bytes), for the linker build also with the declared -o output truncated; plus seeded repeated crashes, crashes under -p 4 schedules and loss of cmd/go's newest GOCACHE files. The same command is then rerun fault-free on the same caches and must exit 0, equal the uninterrupted reference, behave like the plain build and finish within 3x the events of an uninterrupted build.",
+  "The canonical event sequence of a build is recorded per start state {template, linker cache empty, linker missing with stamp intact, cache aged}; a -debugdir build is crashed at sampled event indexes (its rerun runs outside the gate and must also leave the same debug trees); every gated event index (thorough) is a crash point: the whole process tree is SIGKILLed there, for writes also after a torn prefix (0/1/half/size-1 bytes), for the linker build also with the declared -o output truncated; plus seeded repeated crashes, crashes under -p 4 schedules and loss of cmd/go's newest GOCACHE files. The same command is then rerun fault-free on the same caches and must exit 0, equal the uninterrupted reference, behave like the plain build and finish within 3x the events of an uninterrupted build.",
   "Process death only (no power loss; garble never fsyncs); a kill inside an uninstrumented writer is emulated as kill at the surrounding exec event plus truncation of its declared output.",
   TECH + ": crash points enumerated over the recorded event sequence, rerun compared with an uninterrupted reference"),
  chk("C19", "fault_enumeration", "DESIGN.md §4 C19, §10",
